@@ -294,7 +294,21 @@ func init() {
 			return fmt.Sprintf(concStr(a[0], "fmt.Sprintf"), fr.it.hostArgs(a[1].([]Value))...)
 		},
 		"fmt.Errorf": func(fr *Frame, a []Value) Value {
-			return fr.it.makeError(fmt.Sprintf(strings.ReplaceAll(concStr(a[0], "fmt.Errorf"), "%w", "%v"), fr.it.hostArgs(a[1].([]Value))...))
+			format := concStr(a[0], "fmt.Errorf")
+			args := a[1].([]Value)
+			msg := fmt.Sprintf(strings.ReplaceAll(format, "%w", "%v"), fr.it.hostArgs(args)...)
+			if strings.Count(format, "%w") == 1 {
+				// *fmt.wrapError{msg, err}: errors.Is / errors.Unwrap see the wrapped error
+				for _, x := range args {
+					if itf, ok := x.(Iface); ok && itf.T != nil && types.Implements(itf.T, errorIface()) {
+						if wt := fr.it.P.Pkgs["fmt"]; wt != nil && wt.Type("wrapError") != nil {
+							var cell Value = Struct{msg, itf}
+							return Iface{T: types.NewPointer(wt.Type("wrapError").Type()), V: &cell}
+						}
+					}
+				}
+			}
+			return fr.it.makeError(msg)
 		},
 		"fmt.Printf":  func(fr *Frame, a []Value) Value { return Tuple{uint64(0), Iface{}} },
 		"fmt.Println": func(fr *Frame, a []Value) Value { return Tuple{uint64(0), Iface{}} },
@@ -419,6 +433,10 @@ func init() {
 }
 
 type rngState struct{ run int64 }
+
+func errorIface() *types.Interface {
+	return types.Universe.Lookup("error").Type().Underlying().(*types.Interface)
+}
 
 func cu(v Value) uint64 {
 	c, ok := v.(uint64)
